@@ -60,8 +60,8 @@ CFG["level_extra"] = ('single marker faults (C20_fault_burst_no_wrong_time, C20_
                       'bit) or into a valid timestamp word, an edge word turned into a marker - under any cutting into banks: '
                       'the run fails as a whole, or the rows correspond one to one to the timestamp words after the first '
                       'counter-0 marker and EVERY SURVIVING EDGE has an empty time or its true time, never another value '
-                      '(PROVED, no longer only measured by rel20some). Stated for the run of one board (the faulted board; other '
-                      'boards contribute their own rows independently by C20_cb_rows_complete). NOT covered by a theorem: a word '
+                      '(PROVED, no longer only measured by rel20some); also with arbitrary other boards in the run, for the rows of the '
+                      'faulted board (C20_fault_burst_among_boards_no_wrong_time). NOT covered by a theorem: a word '
                       'corrupted into the scaler-block tag 0xFE00003C (swallows the next 240 bytes) and corruptions that leave an '
                       'invalid word are failure/resynchronisation cases (failure theorems + differential); the clause is about ONE '
                       'fault: two corrupted markers on either side of an edge DO give a wrong time '
